@@ -60,6 +60,7 @@ class SDBuilder:
         self.share = share
         self.vtree = vtree
         self.layers = []
+        self._lscope, self._lunits, self.pool = [], [], {}
         self.memo = {}
         self.domains = domains if domains is not None else {}
         self.sum_kinds = sum_kinds or (NONNEG_KINDS if nonneg else REAL_KINDS)
@@ -89,7 +90,23 @@ class SDBuilder:
     # -- helpers
     def add(self, L):
         self.layers.append(L)
-        return len(self.layers) - 1
+        i = len(self.layers) - 1
+        # pool of layers by (scope, units): any of them can be reused wherever such a layer is needed
+        if "in" in L:
+            sc = tuple(sorted(set().union(*[self._lscope[j] for j in L["in"]])))
+            if L["t"] == "sum":
+                un = L["K"]
+            elif L["t"] == "had":
+                un = self._lunits[L["in"][0]]
+            else:
+                un = self._lunits[L["in"][0]] ** len(L["in"])
+        else:
+            sc = () if L["t"] == "const" else (L["v"],)
+            un = L["K"]
+        self._lscope.append(sc)
+        self._lunits.append(un)
+        self.pool.setdefault((sc, un), []).append(i)
+        return i
 
     def units(self, i):
         from vlib.spec import spec_units
@@ -183,6 +200,10 @@ class SDBuilder:
         scope = tuple(sorted(scope))
         key = (scope, K)
         if self.share and key in self.memo and d(st.integers(0, 9)) < 4:
+            if self.decisions is None and len(self.pool.get(key, ())) > 1 and d(st.booleans()):
+                # any layer with this scope and unit count, e.g. the product under an existing sum
+                # (a layer feeding both a sum and another layer)
+                return d(st.sampled_from(self.pool[key]))
             return self.memo[key]
         if len(scope) == 1:
             l = self.leaf(scope[0], K)
@@ -210,7 +231,10 @@ class SDBuilder:
                     ch = [self.build(b, K) for b in blocks]
                     p = self.add({"t": "had", "in": ch})
                     if d(st.booleans()):
+                        ph = p
                         p = self.sum_over([p], K)
+                        if self.share and d(st.integers(0, 3)) == 0:
+                            prods.append(ph)  # the product feeds both its own sum and the sum above
                 prods.append(p)
             if len(prods) == 1:
                 l = prods[0]
@@ -330,7 +354,7 @@ def draw_inputs_rng(spec, seed, B, D=None):
 
 # ----------------------------------------------------------------------------- G-any
 @st.composite
-def any_circuit(draw, *, max_vars=4, max_layers=10, max_id=24, renumber=True):
+def any_circuit(draw, *, max_vars=4, max_layers=10, max_id=24, renumber=True, leaf="emb"):
     """Unconstrained layer DAG: sums over different scopes, overlapping products, constants.
     Unit counts / arities are kept consistent (Circuit() rejects those by documented ValueError)."""
     nv = draw(st.integers(1, max_vars))
@@ -344,7 +368,12 @@ def any_circuit(draw, *, max_vars=4, max_layers=10, max_id=24, renumber=True):
             layers.append({"t": "const", "K": K, "log": False, "p": pk("plain")})
         else:
             v = draw(st.sampled_from(ids))
-            layers.append({"t": "emb", "v": v, "K": K, "n": 2, "p": pk("plain")})
+            if leaf == "pol":
+                layers.append({"t": "pol", "v": v, "K": K, "n": 1, "p": pk("plain")})
+            elif leaf == "cat":
+                layers.append({"t": "cat", "v": v, "K": K, "n": 2, "p": pk("softmax")})
+            else:
+                layers.append({"t": "emb", "v": v, "K": K, "n": 2, "p": pk("plain")})
         units.append(K)
     n_inner = draw(st.integers(1, max_layers))
     for _ in range(n_inner):
